@@ -129,7 +129,9 @@ func innerSumDoc[T any](a alg[T], v []T, rows, batch, n int) (exp []T, mask []bo
 	return
 }
 
-func cAlg() alg[complex128] { return alg[complex128]{add: func(a, b complex128) complex128 { return a + b }} }
+func cAlg() alg[complex128] {
+	return alg[complex128]{add: func(a, b complex128) complex128 { return a + b }}
+}
 func uAlg(t uint64) alg[uint64] {
 	return alg[uint64]{add: func(a, b uint64) uint64 { return ref.AddMod(a, b, t) }}
 }
